@@ -178,11 +178,38 @@ static void do_walk(const std::string &line, const J &in, FILE *out) {
     fprintf(out, "%s\n", s.c_str());
 }
 
+// ---------------------------------------------------------------- C17 metadata
+static void do_meta(const J &in, FILE *out) {
+    std::vector<uint8_t> block = in["block"].bytes();
+    FlushBuf mb(block.size()); memcpy(mb.p, block.data(), block.size());
+    Port port; port.name = "p"; port.metadata = (const char *)mb.p; port.ports = nullptr;
+    JW w; w.obj().kstr("k", "meta").key("es").raw("@E@").kbytes("block", block);
+    int sig = vg_run(10, [&] {
+        auto meta = port.meta();
+        w.key("iter").arr(); int guard = 0;
+        for (auto e : meta) { if (++guard > 64) break; w.obj().kbytes("key", (const uint8_t *)e.title, e.title ? strlen(e.title) : 0).kbool("has", e.value != nullptr)
+            .kbytes("val", (const uint8_t *)e.value, e.value ? strlen(e.value) : 0).end_obj(); }
+        w.end_arr().knum("length", (long long)meta.length());
+        std::vector<std::string> qs; for (auto &e : in["es"].a) { std::string k = e["key"].text(); if (std::find(qs.begin(), qs.end(), k) == qs.end()) qs.push_back(k); }
+        qs.push_back("zz"); if (std::find(qs.begin(), qs.end(), "a") == qs.end()) qs.push_back("a");
+        w.key("queries").arr();
+        for (auto &q : qs) { FlushBuf qb(q.size() + 1); memcpy(qb.p, q.c_str(), q.size() + 1);
+            const char *v = meta[(const char *)qb.p]; auto it = meta.find((const char *)qb.p);
+            w.obj().kbytes("key", (const uint8_t *)q.data(), q.size()).kbool("some", v != nullptr).kbytes("val", (const uint8_t *)v, v ? strlen(v) : 0).kbool("found", (bool)it).end_obj(); }
+        w.end_arr();
+    });
+    w.knum("sig", sig).knum("asan", vg_asan_hits).kstr("asan_what", vg_asan_first).end_obj();
+    // the entry list travels verbatim
+    JW e; e.arr(); for (auto &x : in["es"].a) { e.obj().kbytes("key", x["key"].bytes()).kbool("has", x["has"].b).kbytes("val", x["val"].bytes()).end_obj(); } e.end_arr();
+    std::string s = w.s; s.replace(s.find("@E@"), 3, e.s);
+    fprintf(out, "%s\n", s.c_str());
+}
+
 int main(int argc, char **argv) {
     vg_init();
     if (argc < 4) return 2;
     std::string mode = argv[1]; FILE *f = fopen(argv[2], "r"); FILE *out = fopen(argv[3], "w"); if (!f || !out) return 2;
     std::string line;
-    while (read_line(f, line)) { if (line.empty()) continue; J j = jparse(line); if (mode == "dispatch") do_dispatch(line, j, out); else if (mode == "walk") do_walk(line, j, out); }
+    while (read_line(f, line)) { if (line.empty()) continue; J j = jparse(line); if (mode == "dispatch") do_dispatch(line, j, out); else if (mode == "walk") do_walk(line, j, out); else if (mode == "meta") do_meta(j, out); }
     fclose(out); return 0;
 }
